@@ -22,6 +22,13 @@ Correspondence between the real Perceval code and the Lean model (`Model/C11.lea
              the model (`Model/C11Deep.lean`, driver op `deepcopy`); compared: the identities of the copy's objects
              (one new object per occurrence), nesting and modes, the matrix, and the matrices of original and copy
              after an in-place `inverse(h=True)` of a leaf object of the copy resp. of the original.
+* chain    : histories on ONE object (`Model/C11Chain.lean`, driver op `chain`): every ordered pair of the nine
+             transformations inverse(v) / inverse(h) / inverse(v,h) / Circuit.copy / Processor.copy / simplify /
+             decompose_perms / linear_circuit(flatten=True) / non_unitary_circuit (and longer histories); the matrix law
+             of every step is evaluated on the object the previous step left (a view of a component that step A left
+             behind - the name-indexed parameter table, a cached vector - shows only in what step B reads).
+* perm runs: runs of consecutive PERMs in every relation of their mode ranges (same range, same size shifted,
+             nested, overlapping, disjoint) through simplify and perm_compose.
 * heuristic: every non-successive PERM step of `simplify` has to be THE result of the exact model of
              `_generate_compatible_perm` / `_update_perm` / `_search_empty_space` (`Model/C11Heur.lean`).
 
@@ -2334,7 +2341,11 @@ def load_corpus():
 
 
 def run(chk: core.Check):
-    chk.rule = ("five families: (inverse) construction programs with nested sub-circuits, shared component objects, "
+    chk.rule = ("six families: (chain) histories of 2..5 transformations on one object - every ordered pair of inverse(v) / "
+                "inverse(h) / inverse(v,h) / Circuit.copy / Processor.copy / simplify / decompose_perms / flatten / regroup - on "
+                "nested circuits with shared objects and beam splitters with four different phases, the law of each step "
+                "evaluated on what the previous step left; non-trivial = >= 2 leaves or a lone component; (simplify) also runs "
+                "of consecutive PERMs in every relation of their mode ranges; (inverse) construction programs with nested sub-circuits, shared component objects, "
                 "three BS conventions x five independent rational-exact angles, all (v, h) flag combinations; (perms) "
                 "exhaustive small permutations for the helpers and the bubble sort; (simplify) random circuits of PS "
                 "(numeric incl. exact opposites and zero, variable), PERM, BS, Unitary, Barrier, nested slices, both display "
